@@ -9,12 +9,16 @@ RULE = ("Generators.tla: range as the progression strictly before the end in the
         "WriterRule: every slot exactly once or none); TLC enumerates start / end / step incl. negative steps, non-divisible "
         "and empty spans, n 0..N, errors at every position, every buffer / iterator length pair; each case is replayed into "
         "Vec1Create::range / linspace, Vec1::full / empty, the six collect_* forms on Vec / VecDeque / ndarray and "
-        "write_trust_iter on an instrumented and an ordinary buffer")
+        "write_trust_iter on an instrumented and an ordinary buffer; RangeProof.tla proves the count law (none beyond, none "
+        "missing) for every integer start / end and every non-zero step with the TLA+ proof system")
 
 
 def run(ctx):
     q = ctx.quick
     rg = ctx.tlc("gen", "MCGen", "MCGen_quick.cfg" if q else "MCGen_thorough.cfg", workers=4, timeout=900)
+    # the count law of range for EVERY integer start, end and non-zero step (TLA+ proof system; the operators are the
+    # ones Generators.tla itself uses, RangeIdx.tla): 87 obligations
+    ctx.tlaps("range-proof", "RangeProof", needs=("RangeIdx",))
     binp = ctx.build("tvh-iter")
     ctx.harness("gen", binp, ["replay-gen", "--in", rg["emitted"]])
     ctx.assumptions += BASE_ASSUMPTIONS + [
